@@ -8,7 +8,8 @@ import numpy as np
 from hypothesis import strategies as st
 
 from .. import REPO, VERIF, gen
-from ..config import cfg_hash, describe, make_model
+from ..config import build, cfg_hash, describe, make_model
+from aquacrop import AquaCropModel
 from ..engine import Result
 from ..observe import classify_rejection, digest, init_guard
 from .common import cfg_simplifications, crash_bucket, is_F16c
@@ -16,7 +17,8 @@ from .common import cfg_simplifications, crash_bucket, is_F16c
 ID = "C10"
 RULE = ("Hypothesis-generated histories: a pool of 1-3 small configurations (same and different crops / soils / strategies, most built "
         "with default optional arguments so that default-argument lists and the crop-parameter dictionary are shared) is "
-        "instantiated 2-4 times in ONE process and the instances are created, stepped (run_model(num_steps=k)) and finished in a "
+        "instantiated 2-4 times in ONE process (in half of the histories instances of the same configuration are built from one "
+        "shared set of input objects) and the instances are created, stepped (run_model(num_steps=k)) and finished in a "
         "generated interleaving. Oracle: every instance's output digest (sha256 over the float64 bytes of the three daily tables + "
         "the rendered summary) must equal the digest of the same configuration run alone in a FRESH interpreter with a generated "
         "PYTHONHASHSEED; the first configuration of every history is additionally run in a second fresh interpreter with another "
@@ -62,7 +64,8 @@ def histories(draw):
     # schedule: sequence of instance ids; first occurrence creates, later ones step
     sched = draw(st.lists(st.tuples(st.integers(0, ninst - 1), st.integers(1, 120)), min_size=ninst, max_size=14))
     order = draw(st.permutations(list(range(ninst))))
-    return dict(pool=pool, inst=inst, sched=[[a, b] for a, b in sched], finish=list(order), hashseed=draw(st.integers(0, 4_000_000)))
+    return dict(pool=pool, inst=inst, sched=[[a, b] for a, b in sched], finish=list(order), hashseed=draw(st.integers(0, 4_000_000)),
+                share=draw(st.booleans()))
 
 
 def strategy(tier):
@@ -91,9 +94,18 @@ def evaluate(case):
     failed = {}
     activity = []  # (instance, cfg index) events in order
 
+    shared_kw = {}
+
     def create(i):
         try:
-            m = make_model(pool[inst[i]])
+            if case.get("share"):
+                # instances of the same configuration are built from ONE set of input objects (soil, crop, weather table,
+                # management, groundwater, CO2): a model that ran earlier must not leave anything behind in them
+                if inst[i] not in shared_kw:
+                    shared_kw[inst[i]] = build(pool[inst[i]])
+                m = AquaCropModel(**shared_kw[inst[i]])
+            else:
+                m = make_model(pool[inst[i]])
             with init_guard():
                 m._initialize()
             models[i] = m
@@ -152,6 +164,8 @@ def evaluate(case):
         res.labels.add("same_configuration_twice")
     if len(set(inst)) > 1:
         res.labels.add("different_configurations")
+    if case.get("share") and len(set(inst)) < len(inst):
+        res.labels.add("shared_input_objects")
     res.labels.add("instances=%d" % len(inst))
     return res
 
